@@ -163,6 +163,15 @@ class Func:
             v = self.eval_const(n['e'], depth + 1)
             return None if v is None else int(not v)
         if k in ('icast', 'cast'): return self.eval_const(n['e'], depth + 1)
+        if k == 'bin' and n['op'] in ('&&', '||'):
+            a = self.eval_const(n['lhs'], depth + 1); b = self.eval_const(n['rhs'], depth + 1)
+            if n['op'] == '&&':
+                if a == 0 or b == 0: return 0
+                if a is not None and b is not None: return 1
+            else:
+                if (a is not None and a != 0) or (b is not None and b != 0): return 1
+                if a == 0 and b == 0: return 0
+            return None
         if k == 'call' and 'fk' in n and n.get('org') == 1:
             return self.F.const_return(n['fk'], depth + 1)
         return None
